@@ -1544,7 +1544,7 @@ def c09_correspond(run, rng, tier):
                     'compared with each other (the oracle) and with the model; non-trivial = form containing a macro',
             'samples': forms[:3] + forms[20:22], 'disagreements': diffs, 'oracle_failures': failures, 'distribution': dist}
 
-spec('C09', correspond=c09_correspond, replay=generic_replay, modules=['C09'],
+spec('C09', correspond=c09_correspond, replay=generic_replay, modules=['C09', 'C06Eval'],
      search=lambda run, rng, d: c09_correspond(run, random.Random(rng.random()), 'quick')['oracle_failures'],
      trusted=['the evaluator model is tied to eval/mod.rs by differential execution', 'the correspondence check'],
      assumptions=['values are well formed (metadata cells never nest): needed for the fixpoint theorem, see round_idempotent_false',
@@ -1617,16 +1617,18 @@ def c06_correspond(run, rng, tier):
     for s, r in zip(sessions, real):
         if r and r[-1].startswith('LEAK'):
             failures.append({'expression': unhex(s[2].split(' ')[1]).decode()[:400], 'problem': 'handle audit / heap invariants after the run: ' + r[-1][:200]})
-    # deep structures through the paths that have no depth counter: a process of the plain dev-profile binary must survive
+    # deep structures through the two native recursions that have no depth counter (known finding F14): run in a driver process
+    # of their own (default 8 MiB main-thread stack) so that the death of the process is contained
     findings_seen = set()
-    deep = [('equal-deep-nesting', "(block (define 'nest (lambda (n acc) (if (= n 0) acc (nest (substract n 1) (list acc)))) \"\") (eval (trap (= (nest 200000 1) (nest 200000 1)) 'signalled)))", 'F14-native-recursion-equal'),
-            ('print-long-improper-list', "(eval (trap (length (print (foldl (lambda (acc x) (cons x acc)) 0 (range 200000)))) 'signalled))", 'F14-native-recursion-print-atom')]
-    if tier == 'thorough' or True:
-        for name, expr, fid in deep:
-            rc, out, err = run_plain_expression(expr, timeout=600)
-            if rc != 0:
-                findings_seen.add(fid)
-                failures.append({'expression': expr, 'exit': rc, 'stderr': err[-200:], 'problem': f'{name}: the process died (native stack overflow)', 'finding': fid})
+    deep = [('equal-deep-nesting', "(defun nest (n acc) \"\" (if (= n 0) acc (nest (substract n 1) (list acc))))\n(eval (trap (= (nest 300000 1) (nest 300000 1)) 'signalled))", 'F14-native-recursion-equal'),
+            # printing is quadratic in the length, so the witness uses a 1 MiB worker stack and a 30000-element improper list
+            ('print-long-improper-list', "(eval (trap (length (print (foldl (lambda (acc x) (cons x acc)) 0 (range 30000)))) 'signalled))", 'F14-native-recursion-print-atom')]
+    dsessions = [['new prelude', 'evalstop ' + hexs(expr)] for _, expr, _ in deep]
+    dreal = run_sessions(real_cmd(), dsessions[:1], 300, 1) + run_sessions(real_cmd(1024 * 1024), dsessions[1:], 300, 1)
+    for (name, expr, fid), r in zip(deep, dreal):
+        if any(x.startswith('DRIVER-DIED') or x.startswith('PANIC') for x in r):
+            findings_seen.add(fid)
+            failures.append({'expression': expr, 'real': r[-1][:100], 'problem': f'{name}: the process died (native stack overflow)', 'finding': fid})
     kinds = outcome_stats(real, line=2)
     return {'evaluations': len(calls) + len(progs) - (len(calls) + batch - 1) // batch + len(garbage), 'distinct_nontrivial': len(set(calls)) + len(set(garbage)),
             'rule': 'every native applied to 0-5 arguments from a pool of 40 shapes (nil, extreme integers, characters, named and generated symbols, proper / improper / metadata-carrying lists, strings with and without the list head, '
@@ -1635,8 +1637,170 @@ def c06_correspond(run, rng, tier):
                     'followed by a handle audit; plus process-level runs of the two native recursions that have no depth counter',
             'samples': [calls[5], calls[900], garbage[0][:200]], 'disagreements': diffs, 'oracle_failures': failures, 'distribution': kinds, 'findings_seen': findings_seen}
 
-spec('C06', correspond=c06_correspond, replay=generic_replay, modules=['C06'], plain=True,
+spec('C06', correspond=c06_correspond, replay=generic_replay, modules=['C06', 'C06Eval'],
      search=lambda run, rng, d: c06_correspond(run, random.Random(rng.random()), 'quick')['oracle_failures'],
      trusted=['the evaluator / reader / printer models are tied to the Rust code by differential execution', 'the correspondence check'],
      assumptions=['values are well formed (metadata cells never nest: allocate_metadata refuses to build one)', 'allocation failure (out of memory) is outside the model',
                   'bytes of native stack per recursion level are outside the model (C07 measures them); the two recursions without a depth counter are known finding F14'])
+
+
+# ================================================================================================ C05
+
+from gen import ref_eval
+
+def c05_correspond(run, rng, tier):
+    n = 2500 if tier == 'quick' else 50000
+    progs = []
+    stats = {}
+    for _ in range(n):
+        g = Gen(rng, CORE, fault_rate=rng.choice([0.0, 0.0, 0.1, 0.3]), max_depth=rng.choice([3, 4, 5, 6]))
+        progs.append(g.program())
+        for k, v in g.stats.items():
+            stats[k] = stats.get(k, 0) + v
+    sessions = eval_sessions(progs, flags='')
+    real, model = both(sessions)
+    diffs = compare(sessions, real, model)
+    failures = crash_failures(sessions, real)
+    dist = {'ok': 0, 'sig': 0, 'outside-reference': 0}
+    sigkinds = {}
+    for p, r in zip(progs, real):
+        exp = ref_eval.run_program(p) if 'trap' not in p and 'macro' not in p else None
+        if exp is None:
+            dist['outside-reference'] += 1
+            continue
+        res, _ = parse_eval(r[1] if len(r) > 1 else '')
+        got = []
+        for (kind, printed, dump) in (res or []):
+            if kind == 'ok':
+                got.append(('ok', re.sub(r'0x[0-9a-f]+', '0x?', printed)))
+            elif kind == 'sig':
+                m = re.match(r'\(kind (\S+) source (\S+?)[ )]', printed)
+                got.append(('sig', m.group(1), m.group(2)) if m else ('sig', re.sub(r'0x[0-9a-f]+', '0x?', printed), ''))
+            else:
+                got.append((kind,))
+        for e in exp:
+            dist[e[0]] = dist.get(e[0], 0) + 1
+            if e[0] == 'sig':
+                key = e[1] if e[2] else 'user-signal'
+                sigkinds[key] = sigkinds.get(key, 0) + 1
+        if got != exp:
+            i = next((k for k in range(min(len(got), len(exp))) if got[k] != exp[k]), min(len(got), len(exp)))
+            failures.append({'expression': p, 'form_index': i, 'expected': list(exp[i]) if i < len(exp) else None, 'real': list(got[i]) if i < len(got) else None,
+                             'problem': 'the interpreter and the reference evaluator of the core language disagree'})
+    dist['signal-kinds'] = sigkinds
+    dist['generator'] = {k: stats.get(k, 0) for k in ('lambda', 'shadow', 'restparam', 'hocall', 'fault', 'define', 'var', 'eval')}
+    return {'evaluations': n, 'distinct_nontrivial': len({p for p in progs if 'lambda' in p}),
+            'rule': 'grammar-directed, scope-aware programs of the core language (literals, quote, if, lambda with optional rest parameter, application, global definitions, cons car cdr list add substract multiply divide < > =; '
+                    'nested closures returning closures, parameters shadowing parameters and globals, higher-order calls, rest parameters), 0-30% injected faults (arity, non-symbol parameter, & placement, type error in a chosen operand, '
+                    'unbound variable, bad operator, two faults in different operands); value or (signal kind, source) of every top-level form compared between the real interpreter (natives only, no prelude), the model and '
+                    'a reference evaluator written from the property (Python); non-trivial = program containing a lambda',
+            'samples': progs[:3], 'disagreements': diffs, 'oracle_failures': failures, 'distribution': dist}
+
+spec('C05', correspond=c05_correspond, replay=lambda run, content: generic_replay(run, content), modules=['C05'],
+     search=lambda run, rng, d: c05_correspond(run, random.Random(rng.random()), 'quick')['oracle_failures'],
+     trusted=['the reference semantics Spec/RefEval.lean and the Python reference evaluator as statements of the property', 'the evaluator model is tied to eval/mod.rs by differential execution', 'the correspondence check'],
+     assumptions=['programs do not use names bound to macros (macro names are reserved words for macro expansion, which resolves every symbol)',
+                  'depth: programs stay below the recursion limit (deeper ones raise stackoverflow: C07)'])
+
+
+# ================================================================================================ C10
+
+def c10_char_source(cp):
+    c = chr(cp)
+    return {'\t': '%\\t', '\n': '%\\n', '\r': '%\\r', ' ': '%\\s', '\\': '%\\\\'}.get(c, '%' + c)
+
+def c10_string_source(s):
+    return '"' + ''.join(('\\' + c) if c in '"\\' else c for c in s) + '"'
+
+def c10_readable_sym(s):
+    if not s or any(c in reader_ref.DELIM or c == '\\' for c in s) or s[0] == '%' or s[0].isdigit():
+        return False
+    if s[0] in '+-':
+        rest = s[1:].lstrip('+-%')
+        if rest and rest[0].isascii() and rest[0].isdigit():
+            return False
+    return True
+
+def c10_datum(rng, depth=0):
+    """(source text under quote, is inside the property's domain)"""
+    k = rng.random()
+    if depth >= rng.randint(2, 6) or k < 0.4:
+        a = rng.random()
+        if a < 0.25:
+            v = rng.choice([0, 1, -1, I64MAX, I64MIN, 10**18, -10**18]) if rng.random() < 0.5 else rng.randint(-10**6, 10**6)
+            return str(v)
+        if a < 0.5:
+            cp = rng.choice([40, 41, 39, 34, 59, 44, 37, 92, 32, 9, 10, 13, 0xA0, 0x2028, 0x3000, 97, 0x3BB, 0x1F600, 0, 127, 0x85])
+            return c10_char_source(cp)
+        if a < 0.75:
+            pieces = ['a', ' ', '"', '\\', '\n', '\t', '(', ')', ';', "'", '%', ',', 'λ', ' ', '\r', '0', 'xyz']
+            return c10_string_source(''.join(rng.choice(pieces) for _ in range(rng.randint(0, 6))))
+        s = rng.choice(['a', 'foo', 'list', 'nil', 't', 'quote', '+', '-', 'a-b', '+a', 'a1', 'a%', '*x*', 'λ', 'kind', '<=', '/=', '&', '.'])
+        return s
+    n = rng.randint(0, 5)
+    items = [c10_datum(rng, depth + 1) for _ in range(n)]
+    body = items[1:] if items and items[0] == 'list' else items
+    if items and all(x.startswith('%') for x in body):
+        # a list of characters (possibly headed by `list`) IS a string: the property identifies the two, `=` does not;
+        # the main stream keeps them apart (strings are generated as strings)
+        items.append(str(rng.randint(0, 9)))
+    return '(' + ' '.join(items) + ')'
+
+def c10_correspond(run, rng, tier):
+    failures, dist = [], {'chars': 0, 'strings': 0, 'data': 0}
+    # (i) every scalar value (quick: all below U+3100 plus boundaries and a sample) as a character literal and as a one-character string
+    cps = list(range(0, 0x3100)) + [0xD7FF, 0xE000, 0xFFFD, 0xFFFE, 0xFFFF, 0x10000, 0x1F600, 0x10FFFF]
+    if tier == 'thorough':
+        cps = [c for c in range(0x110000) if not (0xD800 <= c <= 0xDFFF)]
+    else:
+        cps += [rng.choice([rng.randrange(0x3100, 0xD800), rng.randrange(0xE000, 0x110000)]) for _ in range(3000)]
+    per = 150
+    batches = [cps[i:i + per] for i in range(0, len(cps), per)]
+    sessions, meta = [], []
+    for b in batches:
+        forms = []
+        for cp in b:
+            cs, ss = c10_char_source(cp), c10_string_source(chr(cp))
+            forms.append(f"(list (= (read-simple (print {cs})) {cs}) (= (print (read-simple (print {cs}))) (print {cs})) (. (read (print {cs}) 'stdin 1 1) 'rest)"
+                         f" (= (eval (read-simple (print {ss}))) {ss}) (= (print (read-simple (print {ss}))) (print {ss})) (. (read (print {ss}) 'stdin 1 1) 'rest))")
+        sessions.append(['new prelude', 'eval ' + hexs('\n'.join(forms))])
+        meta.append(('chars', b))
+    # (ii) random data
+    n = 1500 if tier == 'quick' else 40000
+    data = [c10_datum(rng) for _ in range(n)]
+    for i in range(0, n, 40):
+        chunk = data[i:i + 40]
+        forms = [f"(list (= (read-simple (print '{d})) '{d}) (= (print (read-simple (print '{d}))) (print '{d})) (. (read (print '{d}) 'stdin 1 1) 'rest))" for d in chunk]
+        sessions.append(['new prelude', 'eval ' + hexs('\n'.join(forms))])
+        meta.append(('data', chunk))
+    real, model = both(sessions, timeout=900)
+    diffs = compare(sessions, real, model)
+    failures += crash_failures(sessions, real)
+    for (kind, items), r in zip(meta, real):
+        res, _ = parse_eval(r[1] if len(r) > 1 else '')
+        if res is None or len(res) != len(items):
+            failures.append({'problem': 'driver did not answer every form', 'real': (r[1] if len(r) > 1 else str(r))[:300], 'expression': str(items[:2])})
+            continue
+        for item, (k, printed, _) in zip(items, res):
+            if kind == 'chars':
+                dist['chars'] += 1
+                dist['strings'] += 1
+                if (k, printed) != ('ok', '(t t () t t ())'):
+                    failures.append({'expression': f'(print {c10_char_source(item)}) / (print {c10_string_source(chr(item))})', 'code_point': item, 'real': f'{k} {printed}',
+                                     'problem': 'character or one-character string does not survive print -> read -> print with nothing left over'})
+            else:
+                dist['data'] += 1
+                if (k, printed) != ('ok', '(t t ())'):
+                    failures.append({'expression': f"(print '{item})", 'real': f'{k} {printed}', 'problem': 'datum does not survive print -> read -> print with nothing left over'})
+    return {'evaluations': len(cps) * 2 + n, 'distinct_nontrivial': len(set(cps)) + len(set(data)),
+            'rule': ('every Unicode scalar value' if tier == 'thorough' else 'every scalar value below U+3100, the plane boundaries and 3000 random others') +
+                    ' as a character literal and as a one-character string, plus random data (integers incl. the extremes, characters weighted to delimiters / quotes / backslash / controls / non-ASCII whitespace, '
+                    'strings with escapes, readable symbols incl. `list`, `nil`, `+`, `a%`, nested lists to depth 6, `()` and `""`): print, read the text back, compare with `=`, print again and compare the text, check nothing is left over — '
+                    'on the real interpreter (the oracle is the round trip itself) and against the model',
+            'samples': data[:4], 'disagreements': diffs, 'oracle_failures': failures, 'distribution': dist, 'exhaustive': False}
+
+spec('C10', correspond=c10_correspond, replay=generic_replay, modules=['C10'],
+     search=lambda run, rng, d: c10_correspond(run, random.Random(rng.random()), 'quick')['oracle_failures'],
+     trusted=['Display for i64 / char and str::parse::<i64> as modelled', 'the reader and printer models are tied to read/mod.rs and print/mod.rs by differential execution', 'the correspondence check'],
+     assumptions=['data: 64-bit integers, characters, readable symbol names (ReadableSym), strings, proper lists nested below the depth limit',
+                  'generated symbols print as #<symbol-0x…>, which is not readable: outside the domain of the property'])
